@@ -556,6 +556,12 @@ class C04(Oracle):
                         {'callback': fc[0], 'site': fc[1], 'fired_for_slot': fc[2],
                          'registered_on_slot': fc[3]}, culprit)
             return
+        rc = st.extra.get('retired_cb')
+        if rc is not None:
+            w.violation('C04', 'callback-unregistered', st,
+                        {'callback': rc[0], 'site': rc[1], 'fired_for_slot': rc[2],
+                         'what': 'a callback the caller had taken out of the list was still notified'}, culprit)
+            return
         if st.extra.get('reset') and st.outcome == 'ok':
             self.check_reset(w, st, culprit)
             return
